@@ -343,7 +343,11 @@ def run_case(case, ctx):
                 o1, _ = run_pipeflow(n1, opts)
                 o2, _ = run_pipeflow(net2, opts)
                 obs.count("pipeflow_on_loaded_compared")
-                if o1 != o2:
+                if o1 != o2 and path != "pickle" and "not_converged" in (o1, o2):
+                    # text formats round the inputs in the 15th decimal (listed finding); a Newton iteration that wanders for a hundred
+                    # steps is sensitive to that, so that one side may run out of budget: a consequence of the rounding, judged there
+                    obs.count("outcome_differs_after_rounded_inputs_not_judged")
+                elif o1 != o2:
                     obs.violate("io_pipeflow_outcome_differs", "%s: pipeflow %s on the original, %s on the loaded net" % (path, o1, o2), path=path)
                 elif o1 == "ok":
                     for k in [k for k in n1.keys() if isinstance(k, str) and k.startswith("res_") and hasattr(n1[k], "columns") and len(n1[k])]:
